@@ -179,6 +179,18 @@ GROUPS = {
         functions=['RelayServiceWithNotify::handle_relay_ws_upgrade (the `let protocol_version = ...` statement)', 'ClientBuilder::connect (the `let protocol_version = ...` statement)',
                    'ProtocolVersion::{ALL, all, all_joined, to_str, match_from_str}'],
     ),
+    # C31: links the real iroh-dns / iroh-base crates (url, simple-dns, z32 ... cannot be shimmed with std only)
+    'endpoint_info_cx': dict(
+        cargo='endpoint_info', binary='verif-endpoint-info-roundtrip', unit='(cargo) endpoint_info/src/main.rs', props=['C31'], files='iroh-dns/src/endpoint_info.rs, attrs.rs, pkarr.rs',
+        bounds=dict(quick=['2', '0'], thorough=['5', '0']),
+        space='every endpoint info whose addresses are a subset of at most {0} of a pool of 20 (8 relay URLs: trailing dot or not, port, path and query, punycode, IPv6 literal, upper '
+              'case; 7 socket addresses: v4/v6, unspecified, limits, v4-mapped; 5 custom addresses incl. empty data, 40 bytes, data that spells a socket address) plus one set of 8 '
+              'addresses of every kind, combined with 29 user-data values (none, empty, `=` and attribute look-alikes, blanks, control characters, quotes, non-ASCII, 245 bytes) '
+              '— all 29 for subsets of at most one address and the 8-address set, 3 of them otherwise; each published as TXT strings and as a signed pkarr packet and resolved',
+        nontrivial='infos with at least one address and user data',
+        functions=['EndpointInfo::{from_parts, to_txt_strings, from_txt_lookup, to_pkarr_signed_packet, from_pkarr_signed_packet}', 'endpoint_info_to_attrs', 'endpoint_info_from_attrs',
+                   'TxtAttrs::{from_parts, from_strings, from_txt_lookup, from_pkarr_signed_packet, to_txt_strings, to_pkarr_signed_packet}', 'SignedPacket::from_txt_strings'],
+    ),
     # second line behind the Verus unit builder_bind
     'builder_bind_bx': dict(
         unit='builder_bind.rs', props=['C20'],
@@ -214,6 +226,12 @@ def run_group(g, prop, tier='quick', only=None):
     res = dict(group=g, status='undecided', reason=None, failures=[], cmds=[], functions=[], trusted_base=[], bounded=True)
     work = os.path.join(CACHE, f'{g}.{os.getpid()}')
     os.makedirs(work, exist_ok=True)
+    if d.get('cargo'):
+        try:
+            return run_cargo_group(g, d, res, work, tier, only, t0)
+        finally:
+            res['wall_s'] = round(time.time() - t0, 2)
+            shutil.rmtree(work, ignore_errors=True)
     try:
         import run as vxrun
         extra_tail = ''
@@ -309,6 +327,62 @@ def run_group(g, prop, tier='quick', only=None):
     finally:
         res['wall_s'] = round(time.time() - t0, 2)
         shutil.rmtree(work, ignore_errors=True)
+
+
+def run_cargo_group(g, d, res, work, tier, only, t0):
+    """A bounded stand-in that links the REAL crates of /repo (path dependencies, offline, /repo's own Cargo.lock) instead of
+    extracting functions: used where the functions under test need dependencies no std-only shim can stand in for."""
+    repo = extract.REPO
+    src_dir = os.path.join(HERE, 'cargo_units', d['cargo'])
+    shutil.copytree(os.path.join(src_dir, 'src'), os.path.join(work, 'src'))
+    with open(os.path.join(work, 'Cargo.toml'), 'w') as f:
+        f.write(open(os.path.join(src_dir, 'Cargo.toml.in')).read().replace('@REPO@', repo))
+    shutil.copy(os.path.join(repo, 'Cargo.lock'), os.path.join(work, 'Cargo.lock'))
+    target = os.path.join(CACHE, 'cargo-target')
+    env = dict(os.environ, CARGO_NET_OFFLINE='true', CARGO_TARGET_DIR=target, VERIF_BX_SHIMS=os.path.join(HERE, 'shims'))
+    cmd = ['cargo', 'build', '--release', '--offline', '--quiet', '--manifest-path', os.path.join(work, 'Cargo.toml')]
+    res['cmds'].append(f'(cd <generated {g}>) CARGO_TARGET_DIR=<cache> ' + ' '.join(cmd[:5]))
+    p = subprocess.run(cmd, capture_output=True, text=True, env=env, timeout=3000)
+    if p.returncode != 0:
+        res['reason'] = 'cargo could not build the harness against the current tree (the public API it uses changed, or the tree does not compile): ' + p.stderr.strip()[-600:]
+        res['tool_output'] = [p.stderr[-3000:]]
+        return res
+    res['functions'] = [dict(unit=f'bx:{g}', function=fn, file=d.get('files', ''), lines=[0, 0], sha256='(real crate linked, not extracted)', dropped_attrs=[]) for fn in d['functions']]
+    res['trusted_base'] = ['the real crates of /repo and their dependencies are linked unchanged (no shims); rustc, cargo and std are correct',
+                           'the harness oracle restates the property (see bx/cargo_units/%s/src/main.rs)' % d['cargo']]
+    res['generated_sha256'] = hashlib.sha256(open(os.path.join(src_dir, 'src', 'main.rs'), 'rb').read()).hexdigest()
+    bounds = list(d['bounds'][tier if tier in d['bounds'] else 'quick'])
+    binary = os.path.join(target, 'release', d['binary'])
+    args = [binary] + bounds + ([only] if only else [])
+    res['cmds'].append(('<cache>/release/%s ' % d['binary']) + ' '.join(bounds + ([only] if only else [])))
+    try:
+        p = subprocess.run(args, capture_output=True, text=True, timeout=3000)
+    except subprocess.TimeoutExpired:
+        res['reason'] = 'bounded run timed out'
+        return res
+    if p.returncode != 0:
+        res['status'] = 'failed'
+        res['failures'].append(dict(obligation='no-panic', class_='other', message='the harness process died: ' + p.stderr.strip()[-400:], concrete=dict(stderr=p.stderr[-1500:])))
+        return res
+    out = json.loads(p.stdout)
+    res['evaluations'] = out['evaluations']
+    res['nontrivial'] = out['nontrivial']
+    res['samples'] = out['samples']
+    res['bound'] = d['space'].format(*bounds)
+    res['nontrivial_rule'] = d['nontrivial']
+    res['fail_counts'] = out['fail_counts']
+    seen = set()
+    for f in out['failures']:
+        key = (f['obligation'], f['class'])
+        if key in seen:
+            continue
+        seen.add(key)
+        n = next((c['count'] for c in out['fail_counts'] if c['obligation'] == f['obligation'] and c['class'] == f['class']), None)
+        res['failures'].append(dict(obligation=f'{f["obligation"]}[{f["class"]}]', class_=f['class'],
+                                    message=f'{f["detail"]} on input {f["input"]} ({n} failing inputs of this kind within the bound)',
+                                    concrete=dict(input=f['input'], detail=f['detail'], failing_inputs_of_this_kind=n, rerun=f'<harness> {" ".join(bounds)} "<input>"')))
+    res['status'] = 'failed' if res['failures'] else 'ok'
+    return res
 
 
 if __name__ == '__main__':
